@@ -180,6 +180,46 @@ func runCanariesImpl(dir string) string {
 			fails = append(fails, "inline-host: a site in inlCollect is attributed to "+h+", not to EachViaNewGood")
 		}
 	}
+	// dispatch labels: switch, if-chain and lookup table read alike
+	for _, name := range []string{"DispatchSwitch", "DispatchIf", "DispatchMap"} {
+		if fi := need(name); fi != nil {
+			labs, _ := w.dispatchLabels(fi, func(e ast.Expr) bool {
+				id, ok := ast.Unparen(e).(*ast.Ident)
+				return ok && id.Name == "k"
+			})
+			if strings.Join(labs, ",") != "a,b" {
+				fails = append(fails, fmt.Sprintf("dispatch-labels/%s: expected [a b], got %v", name, labs))
+			}
+		}
+	}
+	// string shapes: Sprintf, concatenation and builder read alike
+	for _, name := range []string{"ShapeSprintf", "ShapeConcat", "ShapeBuilder"} {
+		if fi := need(name); fi != nil {
+			found := false
+			for _, sh := range w.stringShapes(fi) {
+				if sh.Tmpl == "P%d%s" && len(sh.Args) == 2 {
+					found = true
+				}
+			}
+			if !found {
+				fails = append(fails, "string-shape/"+name+": shape P%d%s not recognised")
+			}
+		}
+	}
+	// an index loop is judged like a range loop
+	if fi := need("EachIndexGood"); fi != nil {
+		loops := w.rangeLoops(fi, w.rangeOverType(fi, "[]"+canaryPkg+".item"))
+		if len(loops) != 1 {
+			fails = append(fails, fmt.Sprintf("index-loop: expected the index loop to be found, found %d", len(loops)))
+		} else {
+			skips := []skipSpec{{Cond: func(e ast.Expr) bool {
+				se, ok := e.(*ast.SelectorExpr)
+				return ok && se.Sel.Name == "Hidden"
+			}, Pol: true, Desc: "hidden"}}
+			_, v := w.eachIteration(fi, w.cfgOf(fi), loops[0], w.appendTo(fi, w.resultSlice(fi)), skips, false)
+			expect("index-loop/EachIndexGood", false, v)
+		}
+	}
 	// dominating guards
 	for _, t := range []struct {
 		name string
